@@ -7,7 +7,9 @@ import (
 	"strconv"
 	"strings"
 
+	"github.com/openconfig/goyang/pkg/yang"
 	"github.com/openconfig/goyang/zzverif/core"
+	"github.com/openconfig/goyang/zzverif/dump"
 	"github.com/openconfig/goyang/zzverif/maporder"
 	"github.com/openconfig/goyang/zzverif/model"
 	"github.com/openconfig/goyang/zzverif/tape"
@@ -294,3 +296,41 @@ func ProfileByName(name string, t *tape.Tape) model.Profile {
 }
 
 var profiles = map[string]func(*tape.Tape) model.Profile{}
+
+// refCompare compares the structural view of every module tree of a clean
+// Process with the reference compilation of the scenario.  It returns "" when
+// they agree, else a description of the first differences.
+func refCompare(ms *yang.Modules, s *model.Scenario, cp *model.Compiled) string {
+	nsOf := map[string]string{}
+	for _, m := range s.Mods {
+		if !m.IsSub() {
+			nsOf[m.Name] = m.NS
+		}
+	}
+	opts := model.CanonOpts{NSOf: nsOf}
+	var sb strings.Builder
+	for _, m := range s.Mods {
+		if m.IsSub() {
+			continue
+		}
+		want := cp.Trees[m.Name]
+		mod := ms.Modules[m.Name]
+		if mod == nil {
+			fmt.Fprintf(&sb, "module %s: not in the module set\n", m.Name)
+			continue
+		}
+		got := dump.ToX(yang.ToEntry(mod), nil)
+		got.NSMod = m.NS
+		wl := model.Canon(want, opts)
+		gl := model.Canon(got, model.CanonOpts{})
+		if strings.Join(wl, "\n") != strings.Join(gl, "\n") {
+			fmt.Fprintf(&sb, "module %s:\n%s", m.Name, model.DiffLines(wl, gl, 6))
+		}
+	}
+	return sb.String()
+}
+
+// RefCompare exposes refCompare to developer tools.
+func RefCompare(ms *yang.Modules, s *model.Scenario, cp *model.Compiled) string {
+	return refCompare(ms, s, cp)
+}
